@@ -670,22 +670,17 @@ def genIllegal : IO Unit := do
   let acc (mode : String) (t : String) (model : String) (kf : Option String) : IO Unit :=
     emit { input := s!"ac {mode} " ++ enc t.toList, modelV := model, specV := "E:SyntaxError",
            tags := ["nt", "illegal"] ++ (match kf with | some k => ["kf=" ++ k] | none => []) }
-  -- the model has no statement grammar: for these recorded witnesses its verdict is the recorded behaviour
-  acc "exec" "(a, b) += 1\n" "ACCEPT" (some "C06-K01")
-  acc "exec" "[a, b] -= 1\n" "ACCEPT" (some "C06-K01")
-  acc "exec" "try:\n  pass\n" "ACCEPT" (some "C06-K02")
-  acc "exec" "try: pass\nx = 1\n" "ACCEPT" (some "C06-K02")
-  acc "exec" "def f(*): pass\n" "ACCEPT" (some "C06-K03")
-  acc "eval" "lambda *: 0" "ACCEPT" (some "C06-K03")
-  acc "exec" "def f(a, *, **k): pass\n" "ACCEPT" (some "C06-K03")
+  -- K01/K02/K03 (statement texts) were repaired (fixes cbae5b7, 787d2c3, 05ee8d3); their verdicts are now DERIVED by the Lean
+  -- statement grammar (GPy.C06.Stmt, cases of StmtGen.stmtKnownTexts); only the eval-mode lambda stays here
+  acc "eval" "lambda *: 0" "E:SyntaxError" none   -- was C06-K03; the Lean expression grammar has plain-name parameters only
   acc "eval" "f(a=1, b)" "E:SyntaxError" none   -- was known finding C06-K07, repaired by fix acb9962
   acc "eval" "f(**k, a)" "E:SyntaxError" none
   -- legal Python that gpython rejects: form feed is white space
   emit { input := "ac eval " ++ enc "a \x0c+ b".toList, modelV := "E:SyntaxError", specV := "ACCEPT", tags := ["nt", "legal", "kf=C06-K08"] }
   emit { input := "ac exec " ++ enc "\x0ca = 1\n".toList, modelV := "E:SyntaxError", specV := "ACCEPT", tags := ["nt", "legal", "kf=C06-K08"] }
   -- wrong trees (recorded): dotted decorator name, kw_defaults without the None placeholders
-  emit { input := "ex " ++ enc "@a.b\ndef f(): pass\n".toList, modelV := "[(FunctionDef f (Arguments [] - [] [] - []) [(Pass)] [(Name a.b)] -)]",
-         specV := "[(FunctionDef f (Arguments [] - [] [] - []) [(Pass)] [(Attribute (Name a) b)] -)]", tags := ["nt", "tree", "kf=C06-K09"] }
+  emit { input := "ex " ++ enc "@a.b\ndef f(): pass\n".toList, modelV := "[(FunctionDef f (Arguments [] - [] [] - []) [(Pass)] [(Attribute (Name a) b)] -)]",   -- was C06-K09, repaired by fix d0f90d8
+         specV := "[(FunctionDef f (Arguments [] - [] [] - []) [(Pass)] [(Attribute (Name a) b)] -)]", tags := ["nt", "tree"] }
   emit { input := "ev " ++ enc "lambda *, a, b=1: 0".toList, modelV := "(Lambda (Arguments [] - [(Arg a -) (Arg b -)] [- (Num 1)] - []) (Num 0))",   -- was C06-K10, repaired by fix 7a5ce26
          specV := "(Lambda (Arguments [] - [(Arg a -) (Arg b -)] [- (Num 1)] - []) (Num 0))", tags := ["nt", "tree"] }
   -- must be rejected (and are)
